@@ -101,6 +101,10 @@ func schemaStmts(rows int) []string {
 		fmt.Sprintf("WITH RECURSIVE c(x) AS (SELECT 1 UNION ALL SELECT x+1 FROM c WHERE x < %d) INSERT INTO t (b, c) SELECT x%%7, CASE x%%3 WHEN 0 THEN 'Row' ELSE 'row' END||(x%%11)||hex(zeroblob(x%%40)) FROM c", rows),
 		fmt.Sprintf("WITH RECURSIVE c(x) AS (SELECT 1 UNION ALL SELECT x+1 FROM c WHERE x < %d) INSERT INTO w SELECT 'k'||x, x%%5, hex(zeroblob(700)) FROM c", rows),
 		// rows that take long to hand over (hundreds of overflow pages each)
+		// definitions outside the library's grammar: everything that touches
+		// them ends in an error, and that error is the same every time
+		"CREATE INDEX tpart ON t (b) WHERE b IS NOT NULL AND c LIKE 'r%'",
+		"CREATE TABLE odd (a, b CHECK (b BETWEEN 1 AND 5), c AS (a || 'x'))",
 		"CREATE TABLE big (id INTEGER PRIMARY KEY, payload BLOB)",
 		"INSERT INTO big (payload) VALUES (zeroblob(250000)), (zeroblob(250001)), (zeroblob(250002)), (zeroblob(250003))",
 	}
@@ -154,7 +158,7 @@ type spec struct {
 	Case    []bool // letter case pattern of the keywords in the fresh file's DDL and in parse-fresh statements
 }
 
-var kinds = []string{"parse-fresh", "select-probed", "select", "select-wr", "indexed", "indexed-nocase", "indexed-eq", "indexed-wr", "pk", "rowid", "columns", "low-scan", "parse", "compare", "driver", "driver-early-close", "driver-connect", "open-close", "schema"}
+var kinds = []string{"parse-fresh", "select-probed", "select", "select-wr", "indexed", "indexed-nocase", "indexed-eq", "indexed-wr", "pk", "rowid", "columns", "low-scan", "parse", "compare", "driver", "driver-early-close", "driver-connect", "open-close", "schema", "def", "def"}
 
 var statements = []string{
 	"CREATE TABLE t (a INTEGER PRIMARY KEY, b, c TEXT COLLATE NOCASE)",
@@ -337,6 +341,40 @@ func runOp(h *handles, o opSpec, yield bool, pattern []bool) string {
 		})
 		if err != nil {
 			return fail(err)
+		}
+	case "def":
+		// the parsed definitions of tables and indexes, among them two the
+		// grammar does not take (an error path of its own)
+		d, err := h.low(o.File)
+		if err != nil {
+			return fail(err)
+		}
+		if err := d.RLock(); err != nil {
+			return fail(err)
+		}
+		defer d.RUnlock()
+		for _, n := range []string{"t", "odd", "w"} {
+			tab, err := d.Table(n)
+			if err != nil {
+				fmt.Fprintf(&b, "table %s: %v;", n, err)
+				continue
+			}
+			def, err := tab.Def()
+			js, _ := json.Marshal(def)
+			fmt.Fprintf(&b, "table %s: %s %v;", n, js, err)
+		}
+		for _, n := range []string{"tb", "tpart", "wv"} {
+			ix, err := d.Index(n)
+			if err != nil {
+				fmt.Fprintf(&b, "index %s: %v;", n, err)
+				continue
+			}
+			def, err := ix.Def()
+			js, _ := json.Marshal(def)
+			fmt.Fprintf(&b, "index %s: %s %v;", n, js, err)
+		}
+		if _, err := d.Schema("odd"); err != nil {
+			fmt.Fprintf(&b, "schema odd: %v;", err)
 		}
 	case "parse", "parse-fresh":
 		q := statements[o.Arg%len(statements)]
